@@ -236,6 +236,17 @@ def gen_case(rng, big=False):
     statics = [p for p, k in files.items() if k in ("conf", "unconf", "unconf_absent", "missing", "det_static")]
     allp = sorted(files)
 
+    def wr(p):
+        """An external write: deletion, or new bytes in one of the ways a file system allows
+        (c03_driver.REPLACE_KINDS); half of them in place, the others through rename(2), with or
+        without preserved mtime / size / mode, and the two kinds that change nothing."""
+        if rng.random() < 0.2:
+            return ["write", p, 0]
+        r = rng.random()
+        how = "inplace" if r < 0.45 else "rename_keep" if r < 0.70 else \
+            rng.choice(["rename", "chmod_keep", "same_newino", "touch"])
+        return ["write", p, nv(), how]
+
     def env(n, inside):
         acts = []
         for _ in range(n):
@@ -252,7 +263,7 @@ def gen_case(rng, big=False):
             elif r < 0.75:
                 p = rng.choice(allp)
                 if files[p] != "volatile":
-                    acts.append(["write", p, 0 if rng.random() < 0.2 else nv()])
+                    acts.append(wr(p))
             elif r < 0.85 and statics:
                 acts.append(["confirm", rng.choice(statics)])
             elif r < 0.90:
@@ -276,7 +287,7 @@ def gen_case(rng, big=False):
         elif r < 0.28:
             p = rng.choice(allp)
             if files[p] != "volatile":
-                acts.append(["write", p, 0 if rng.random() < 0.2 else nv()])
+                acts.append(wr(p))
         elif r < 0.33:
             acts.append(["setenv", rng.choice(["e0", "e1", "e2"])])
         elif r < 0.36:
@@ -319,7 +330,7 @@ def gen_case(rng, big=False):
             elif r < 0.6:
                 p = rng.choice(allp)
                 if files[p] != "volatile":
-                    chk_during.append(["write", p, 0 if rng.random() < 0.2 else nv()])
+                    chk_during.append(wr(p))
             else:
                 chk_during += env(1, True)
         cancel = []
@@ -446,6 +457,15 @@ def codes_in_window(case, path, start, end):
     return seen
 
 
+def last_how(case, path, lo, hi):
+    """How the last external write of `path` with lo < order <= hi reached the file system
+    (c03_driver.REPLACE_KINDS, `delete`), or `no-external-write`: part of the signature, so that a
+    shortcut of FileHash.refreshed that is defeated by one kind of replacement is reported as such."""
+    hows = [e.get("how", "inplace") for e in case.log
+            if e["what"] == "external-write" and e.get("path") == path and lo < e["order"] <= hi]
+    return hows[-1] if hows else "no-external-write"
+
+
 def oracle_case(ctx, case, fails):
     spec = case.spec
     for r in case.runs:
@@ -519,10 +539,15 @@ def oracle_case(ctx, case, fails):
             seen = codes_in_window(case, path, r["start"], r["end"])
             if seen[-1] != code:
                 # the hash recorded when the command returns differs from the disk: must fail and drain
+                # (unless the post-run hashing itself was cancelled by a shutdown: nothing was compared,
+                # the step is not SUCCEEDED -- checked above -- and dispatch is stopping anyway)
+                if "end" in r.get("cancel", ()):
+                    continue
                 if state != S_FAILED or not r["draining"]:
-                    fails.append(("oracle:changed-input:not-failed-and-draining",
-                                  f"{path}: disk at end {seen[-1]} differs from recorded {code} but state={state} "
-                                  f"draining={r['draining']}", r))
+                    how = last_how(case, path, 0, r["end"])
+                    fails.append((f"oracle:changed-input:not-failed-and-draining:last-write-{how}",
+                                  f"{path}: disk at end {seen[-1]} differs from recorded {code} (last external write: "
+                                  f"{how}) but state={state} draining={r['draining']}", r))
         # An amended input that had no recorded hash before the request (UNCONFIRMED, or adopted by a
         # static tree on the spot) is observed for the first time by the promoted hash job: nothing can
         # be known about the part of the window before that (ASSUMPTIONS[3]); its window starts there.
@@ -547,7 +572,8 @@ def oracle_case(ctx, case, fails):
             elif any(e["what"] == "confirm" for e in why):
                 sig = SIG_RECONF
             else:
-                sig = SIG_OTHER
+                how = last_how(case, path, r["start"], r["end"])
+                sig = SIG_OTHER + ("" if how in ("inplace", "no-external-write") else f":last-write-{how}")
             fails.append((sig, f"step c ended SUCCEEDED with input {path} ({'amended' if dyn else 'declared'}) recorded "
                                f"with content {code}, but during its command the file had contents {seen} "
                                f"(log: {[e['what'] for e in why]})",
@@ -588,9 +614,12 @@ def checking_oracle(case, r, fails):
         if cancelled:
             fails.append(("oracle:cancel:checking:succeeded", "a cancelled hash computation left the step SUCCEEDED", ev))
         if not inp_same or changed or not all_available:
-            fails.append(("oracle:skip:succeeded-with-input-differing-from-stored-hash",
+            hows = sorted({last_how(case, p, 0, chk["inp_order"]) for p in changed})
+            fails.append(("oracle:skip:succeeded-with-input-differing-from-stored-hash"
+                          + (":last-write-" + "+".join(hows) if hows and hows != ["inplace"] else ""),
                           f"the step was recorded SUCCEEDED by a skip although its inputs on disk (changed vs record: "
-                          f"{changed}, all available: {all_available}) do not have the stored input digest", ev))
+                          f"{changed}, last written by {hows}, all available: {all_available}) do not have the stored "
+                          f"input digest", ev))
         if out_same is not True or not outs_exist:
             fails.append(("oracle:skip:succeeded-with-output-differing-from-stored-hash",
                           f"the step was recorded SUCCEEDED by a skip although its outputs on disk do not have the "
@@ -629,22 +658,28 @@ def dispatch_oracle(ctx, case, fails):
     """Every run that started: the declared inputs were attached BUILT/CONFIRMED with the on-disk
     content at that moment (from the trace: the last ERow / EWrite before the ETry)."""
     rows, disk = {}, {}
+    started = [r for r in case.runs if r.get("started")]
+    nstarted = 0
     for kind, payload, exp in case.trace:
         if kind == "ERow":
             rows[payload[0]] = payload[1]
         elif kind == "EWrite":
             disk[payload[0]] = payload[1]
         elif kind == "XTry" and exp[1] == 1 and exp[2]:
+            r = started[nstarted] if nstarted < len(started) else None
+            nstarted += 1
             for p in case.spec["initial"]:
                 i = case.paths.index(p) + 1
                 ex, st, h, det, hc, prod, tree = rows[i]
                 if det or st not in (F_BUILT, F_CONFIRMED) or disk.get(i, 0) != h:
-                    fails.append(("oracle:started-with-unavailable-or-changed-input",
-                                  f"command started although declared input {p} had row {rows[i]} and disk {disk.get(i, 0)}",
-                                  {"path": p}))
+                    how = last_how(case, p, 0, r["start"]) if r is not None and disk.get(i, 0) != h else None
+                    fails.append(("oracle:started-with-unavailable-or-changed-input"
+                                  + (f":last-write-{how}" if how not in (None, "inplace") else ""),
+                                  f"command started although declared input {p} had row {rows[i]} and disk {disk.get(i, 0)}"
+                                  + (f" (last written: {how})" if how else ""), {"path": p}))
 
 
-def run_consumer_cases(ctx, n, big=False, specs=None):
+def run_consumer_cases(ctx, n, big=False, specs=None, cases_out=None):
     from .c03_driver import run_case
     rng = ctx.rng
     checks, descr, fails_all = [], [], []
@@ -673,6 +708,8 @@ def run_consumer_cases(ctx, n, big=False, specs=None):
                 ctx.count("amend:" + ("rejected" if v["rejected"] else "carry_on" if v["carry_on"] else "defer"))
         checks.append(coq_case(case))
         descr.append(spec)
+        if cases_out is not None:
+            cases_out.append(case)
         fails = []
         oracle_case(ctx, case, fails)
         dispatch_oracle(ctx, case, fails)
@@ -840,6 +877,76 @@ def validate_loop_witness(ctx, fails):
                       {"spec": WITNESS_VALIDATE_LOOP, "evidence": {"system": res}}))
 
 
+def replace_kind_specs():
+    """Directed histories for the decision "has this input changed since it was recorded"
+    (FileHash.refreshed's shortcut, compute_inp_hashes, the pre-run check of _new_run, the post-run
+    check of _compute_full_step_hash, the input check of try_skip_job): a declared input (static
+    f01.txt / built f02.txt) is replaced in each of the ways of c03_driver.REPLACE_KINDS (a) while the
+    command runs, (b) between its recording and the dispatch, (c) before the dispatch of a step that
+    holds a stored hash."""
+    from .c03_driver import REPLACE_KINDS
+    out = []
+    for how in REPLACE_KINDS:
+        for path in ("f01.txt", "f02.txt"):
+            base = {"files": {"f01.txt": "conf", "f02.txt": "built"}, "initial": ["f01.txt", "f02.txt"],
+                    "static_owner": {}, "cap": 2, "keep_going": False, "explain": path == "f01.txt"}
+            w = ["write", path, 7, how]
+            out.append((how, "during-command", path, dict(base, runs=[dict(_IDLE, during=[["tick", 1], w])])))
+            out.append((how, "before-dispatch", path, dict(base, runs=[dict(_IDLE, before=[w])])))
+            out.append((how, "before-skip", path, dict(base, runs=[dict(_IDLE), dict(_IDLE, before=[w, ["repend"]])])))
+    return out
+
+
+def replace_kind_witnesses(ctx, fails):
+    """Every replacement that changes content, size or mode must be noticed at the next check
+    (FAILED + draining, no command started after it, no skip); one that changes neither (same bytes
+    in a new inode, touch) is expected not to disturb the step (model: no event; a needless failure
+    is only noted).  Signature = kind of replacement + phase."""
+    from .c03_driver import REPLACE_KINDS
+    items = replace_kind_specs()
+    cases = []
+    checks, descr, fs = run_consumer_cases(ctx, len(items), specs=[it[3] for it in items], cases_out=cases)
+    fails += fs
+    bad = common.run_cases(ctx, "replace", HEADER, checks, chunk=40)
+    for i in bad[:3]:
+        ctx.add_failure("correspondence", "consumer-replace", f"corr:consumer:model-vs-implementation:replace-{items[i][0]}",
+                        f"model and implementation disagree on the directed history {items[i][:3]}",
+                        witness={"spec": descr[i]})
+    if len(cases) != len(items):
+        return     # an internal error was reported by run_consumer_cases
+    for (how, phase, path, spec), case in zip(items, cases):
+        changes = REPLACE_KINDS[how]
+        r = case.runs[-1]
+        ctx.case(("replace", how, phase, path), nontrivial=True)
+        ctx.count(f"replace:{how}:{phase}")
+        noticed = r.get("state") == S_FAILED and r.get("draining") and not r.get("has_hash")
+        if phase == "during-command":
+            shape_ok = bool(r.get("started"))
+            quiet = r.get("state") == S_SUCCEEDED and not r.get("draining")
+        elif phase == "before-dispatch":
+            shape_ok = bool(r.get("dispatched")) and r.get("kind") == 1
+            noticed = noticed and not r.get("started")
+            quiet = bool(r.get("started")) and r.get("state") == S_SUCCEEDED and not r.get("draining")
+        else:
+            shape_ok = bool(r.get("dispatched")) and r.get("kind") == 2
+            quiet = r.get("state") == S_SUCCEEDED and "SKIP" in r.get("tags", ()) and not r.get("draining")
+        ev = {"how": how, "phase": phase, "path": path,
+              "run": {k: v for k, v in r.items() if k not in ("amend_verdicts", "chk")}}
+        if not shape_ok:
+            fails.append((f"oracle:replace:{how}:{phase}:witness-shape", f"directed history {how}/{phase}/{path} did not "
+                          f"reach the intended check: {ev['run']}", {"spec": spec, "evidence": ev}))
+        elif changes and not noticed:
+            fails.append((f"oracle:replace:{how}:{phase}:not-noticed",
+                          f"{path} was replaced ({how}: other content, size or mode) {phase.replace('-', ' ')} but the step "
+                          f"did not end FAILED with the scheduler draining: state={r.get('state')} started={r.get('started')} "
+                          f"draining={r.get('draining')} has_hash={r.get('has_hash')}", {"spec": spec, "evidence": ev}))
+        elif not changes and not quiet:
+            # a needless failure is not forbidden by the property text: a note, not a violation (the
+            # correspondence above reports it as a disagreement with the model)
+            ctx.notes.append(f"C03 replace/{how}/{phase}/{path}: same content, but the step did not succeed undisturbed: "
+                             f"state={r.get('state')} draining={r.get('draining')}")
+
+
 def report(ctx, fails):
     seen = set()
     for sig, detail, wit in fails:
@@ -880,6 +987,7 @@ def fixed_witnesses(ctx):
                       {"spec": WITNESS_SKIP, "evidence": {"runs": got}}))
     validate_loop_witness(ctx, fails)
     skip_window_witness(ctx, fails)
+    replace_kind_witnesses(ctx, fails)
     return fails
 
 
